@@ -204,7 +204,7 @@ var rawEnd = []opSpec{
 	{req: AReq{Op: "oversize", Bad: "none"}, frame: []byte{255, 255, 255, 255, 11}},
 }
 
-var bigLeft atomic.Int32 // oversized (16 MiB) requests still allowed in this execution
+var bigLeft atomic.Int32  // oversized (16 MiB) requests still allowed in this execution
 var stormMode atomic.Bool // keyring storm: only operations on the key list
 
 func genOp(rng *rand.Rand, kind string, keys []string, tag string, allowBig bool) opSpec {
@@ -347,7 +347,7 @@ func concurrentRound(t *testing.T, round int, rng *rand.Rand, allowBig bool, sto
 	nconn := 2 + rng.Intn(3)
 	kinds := []string{"serial", "pipelined", "raw", "direct"}
 	if storm {
-		// keyring storm: many direct callers and one pipelined connection hammer a few keys (atomicity of
+		// keyring storm: direct callers and one pipelined connection hammer a few keys (atomicity of
 		// Add / Remove / RemoveAll against List and Signers under keyring.mu)
 		nconn, kinds = 3, []string{"direct", "direct", "pipelined"}
 	}
@@ -389,11 +389,15 @@ func concurrentRound(t *testing.T, round int, rng *rand.Rand, allowBig bool, sto
 	keys := names[:2+rng.Intn(2)]
 	maxOps := 4
 	if storm {
-		keys, maxOps = []string{"ed1", "ed2", "ec1", "ed1c"}, 10
+		keys, maxOps = []string{"ed1", "ed2", "ec1", "ed1c"}, 8
 	}
 	stormMode.Store(storm)
+	maxCallers := 3
+	if storm {
+		maxCallers = 2
+	}
 	fin := waitOrDump(t, "callers", 240*time.Second, func() {
-		runCallers(t, lg, rng, eps, keys, 3, maxOps, allowBig, nil)
+		runCallers(t, lg, rng, eps, keys, maxCallers, maxOps, allowBig, nil)
 		// the final state, seen directly
 		lg.Conn(6, false)
 		fe := &endpoint{c: 6, kind: "direct", api: kr.(agent.ExtendedAgent)}
@@ -428,7 +432,7 @@ func TestConcurrent(t *testing.T) {
 	ops, bigs := 0, 0
 	for r := 0; r < rounds; r++ {
 		rng := vutil.Rand(int64(6000 + r))
-		ev, _, ok := concurrentRound(t, r, rng, r%6 == 5, r%4 == 3)
+		ev, _, ok := concurrentRound(t, r, rng, r%8 == 5, r%4 == 3)
 		if !ok {
 			classifyHang(t, out, "concurrent", r, ev)
 			return
